@@ -375,6 +375,7 @@ func (d *clientStreamDownloader) fillSegmentQueue(
 		return err
 	}
 
+	verifYield("client.downloader.beforePush")
 	d.segmentQueue.push(&segmentData{
 		dateTime: seg.DateTime,
 		payload:  byts,
